@@ -163,6 +163,7 @@ def g_pump(modes):
         for t in ("Command", "CommandResponseStream"):
             jobs.append((pump.unit_pump, (mode, t)))
         jobs.append((pump.unit_pump, (mode, "Command", "custom")))
+        jobs.append((pump.unit_pump, (mode, "Response")))
     return jobs
 
 
